@@ -170,6 +170,10 @@ Theorem C05_locate_span_ok k span : NoDup span -> locate_ok Z (locate_span k spa
 Proof. exact (locate_span_ok k span). Qed.
 Theorem C05_locate_span_unknown k span x : ~ In x span -> locate_span k span x = LFail.
 Proof. exact (locate_span_unknown k span x). Qed.
+(* a label carried by exactly one period resolves to that period's position on every span type, whatever the other labels *)
+Theorem C05_locate_span_unique k span x i :
+  nth_error span i = Some x -> count_of x span = 1%nat -> locate_span k span x = LInt (Z.of_nat i).
+Proof. exact (locate_span_unique k span x i). Qed.
 (* a label carried by several periods does not resolve to a single position: first occurrence on a list / tuple / range,
    an exception on a NumPy array, a slice / mask (not an int) on a pandas Index *)
 Theorem C05_locate_span_repeated k span x : (2 <= count_of x span)%nat ->
@@ -225,6 +229,20 @@ Section C05span.
     | (s', Raise e) => (s', Raise e)
     end.
   Proof. exact (solve_every_span num sub absf ltb isfin zero ev before after k span d o start end_ s a b). Qed.
+  (* the sharp guard: solve(start, end) = the fold over positions a..b as soon as the label of period a and the label of period b
+     are each carried by exactly one period (the other periods may share labels) — for every supported span type.  The kept
+     finding C05_default_range_repeated_label_refuted is precisely the failure of this guard for a default end. *)
+  Theorem C05_solve_unique_ends k span d o start end_ s a b xs xe :
+    min_iter o <= max_iter o ->
+    nth_error span a = Some xs -> nth_error span b = Some xe ->
+    count_of xs span = 1%nat -> count_of xe span = 1%nat ->
+    resolves_start Z d span start a -> resolves_end Z d span end_ b ->
+    solve_M k span d o span start end_ s =
+    match run_periods d o (periods Z span a b) s [] with
+    | (s', Ret vs) => (s', Ret (mkRes (S b - a) vs))
+    | (s', Raise e) => (s', Raise e)
+    end.
+  Proof. exact (solve_unique_ends num sub absf ltb isfin zero ev before after k span d o start end_ s a b xs xe). Qed.
   Theorem C05_solve_unknown_start_every_span k span d o x end_ s :
     min_iter o <= max_iter o -> ~ In x span -> solve_M k span d o span (Some x) end_ s = (s, Raise KeyError).
   Proof. exact (solve_unknown_start_every_span num sub absf ltb isfin zero ev before after k span d o x end_ s). Qed.
@@ -312,6 +330,8 @@ Print Assumptions C05_solve_period_repeated_label.
 Print Assumptions C05_solve_period_repeated_label_list.
 Print Assumptions C05_iter_periods_every_span.
 Print Assumptions C05_solve_every_span.
+Print Assumptions C05_solve_unique_ends.
+Print Assumptions C05_locate_span_unique.
 Print Assumptions C05_solve_unknown_start_every_span.
 Print Assumptions C05_solve_unknown_end_every_span.
 Print Assumptions C05_solve_start_before_lags_rejected.
@@ -319,6 +339,7 @@ Print Assumptions C05_solve_default_start_beyond_span.
 Print Assumptions C05_solve_default_end_beyond_span.
 Print Assumptions exS_defaults_beyond_span.
 Print Assumptions C05_default_range_repeated_label_refuted.
+Print Assumptions exS_unique_ends.
 Print Assumptions exS_every_span_kind.
 Print Assumptions exS_repeated_label.
 Print Assumptions exS_start_before_lags.
